@@ -64,7 +64,7 @@ func runC08(c *Ctx, r *Rng, sc c08Scenario, idx int) {
 	stopPeer := make(chan struct{})
 	var peerWG sync.WaitGroup
 	var sentDatagrams [][]byte // datagrams the peer sent, in order
-	peerRng := r.Fork() // the peer goroutine draws from its own generator
+	peerRng := r.Fork()        // the peer goroutine draws from its own generator
 	if sc.peer != "closed" {
 		peerWG.Add(1)
 		go func() {
@@ -124,6 +124,8 @@ func runC08(c *Ctx, r *Rng, sc c08Scenario, idx int) {
 		ctx, cancel = context.WithCancel(ctx)
 	case "deadline":
 		ctx, cancel = context.WithTimeout(ctx, 60*time.Millisecond)
+	case "deadline-long":
+		ctx, cancel = context.WithTimeout(ctx, 400*time.Millisecond)
 	case "none":
 		ctx, cancel = context.WithTimeout(ctx, 5*time.Second) // safety net only
 	}
@@ -193,6 +195,20 @@ func runC08(c *Ctx, r *Rng, sc c08Scenario, idx int) {
 	}
 	if sc.retry <= 0 && sc.peer != "closed" && len(gotCopy) != 1 && sc.cancel != "before" {
 		c.Fail("spec", "Exchange", sc.name, key, fmt.Sprintf("%d datagrams", len(gotCopy)), "1", "no retransmission when the interval is zero or negative")
+	}
+	if sc.name == "silent-interval" {
+		// while it waits it keeps retransmitting at the configured interval: a generous lower bound (a third of the
+		// nominal count) separates a steady ticker from one that slows down or stops
+		waited := retAt.Sub(start)
+		minN := int(waited/sc.retry) / 3
+		if len(gotCopy) < minN {
+			c.Fail("spec", "Exchange", sc.name, key, fmt.Sprintf("%d datagrams in %v", len(gotCopy), waited), fmt.Sprintf(">= %d (interval %v)", minN, sc.retry), "while it waits it retransmits the request at the configured interval")
+		}
+	}
+	if sc.name == "closed-port-prompt" {
+		if xerr == nil || errors.Is(xerr, context.DeadlineExceeded) || retAt.Sub(start) > 2*time.Second {
+			c.Fail("spec", "Exchange", sc.name, key, fmt.Sprintf("%v after %v", xerr, retAt.Sub(start)), "the network error, promptly", "Exchange returns with the network error when the peer is unreachable (the loopback interface reports the closed port)")
+		}
 	}
 	if sc.retry > 0 && sc.peer == "silent" && sc.cancel == "after-first" {
 		// roughly one per interval while waiting (generous bounds)
@@ -335,6 +351,29 @@ func runC08(c *Ctx, r *Rng, sc c08Scenario, idx int) {
 	peerWG.Wait()
 }
 
+// does a write to a closed UDP port on loopback come back as ECONNREFUSED here?
+func loopbackRefuses() bool {
+	pc, err := net.ListenPacket("udp", "127.0.0.1:0")
+	if err != nil {
+		return false
+	}
+	addr := pc.LocalAddr().String()
+	pc.Close()
+	cn, err := net.Dial("udp", addr)
+	if err != nil {
+		return false
+	}
+	defer cn.Close()
+	for i := 0; i < 3; i++ {
+		cn.Write([]byte{0})
+		cn.SetReadDeadline(time.Now().Add(200 * time.Millisecond))
+		if _, err := cn.Read(make([]byte, 8)); err != nil && errors.Is(err, syscall.ECONNREFUSED) {
+			return true
+		}
+	}
+	return false
+}
+
 func init() {
 	props["C08"] = func(c *Ctx) {
 		c.Res.Rule = "real Client.Exchange over loopback UDP: peer behaviour {silent, garbage flood, late authentic reply, closed port} x Retry {-1, 0, 5 ms, 1 h} x MaxPacketErrors {0, 3} x cancellation {none, before the call, after the first datagram, deadline}. Checked directly: return class, context error only when the context ended and promptly (generous bounds), byte-identical retransmissions, exactly one transmission for Retry <= 0, nothing sent after return, no goroutine of Exchange alive after return; the run is translated into an event sequence of the lifecycle model and the model's result compared. non-trivial = run with a cancellation or more than one transmission"
@@ -353,6 +392,14 @@ func init() {
 			)
 		}
 		scs = append(scs, c08Scenario{"late-reply-after-retries", "late", 5 * time.Millisecond, 0, "none", 3})
+		scs = append(scs, c08Scenario{"silent-interval", "silent", 10 * time.Millisecond, 0, "deadline-long", 0})
+		if loopbackRefuses() {
+			scs = append(scs,
+				c08Scenario{"closed-port-prompt", "closed", 0, 0, "none", 0},
+				c08Scenario{"closed-port-prompt", "closed", 50 * time.Millisecond, 0, "none", 0})
+		} else {
+			c.Note("loopback does not report closed UDP ports here: the 'network error' clause is not exercised")
+		}
 		reps := c.N(1, 8)
 		idx := 0
 		for rep := 0; rep < reps; rep++ {
@@ -363,6 +410,6 @@ func init() {
 		}
 		c.Trivial("closed-port")
 		c.Flush()
-		c.RequireTags("silent-cancel", "silent-deadline", "flood-cancel", "late-reply", "expired-before", "late-reply-after-retries")
+		c.RequireTags("silent-cancel", "silent-deadline", "flood-cancel", "late-reply", "expired-before", "late-reply-after-retries", "silent-interval")
 	}
 }
